@@ -66,6 +66,12 @@ TABLE = {
                      "snapshot of user lists and objects must be unchanged.",
                 technique="TLA+ session machine (EvalSession) histories exported by TLC + replay with fault injection into user predicates + TLC trace validation against EQLSem",
                 ref="7 C04"),
+    "C05": dict(text="Every generated program is built twice and evaluated under both cache configurations, first evaluation and "
+                     "re-evaluations, and with the configuration switched under a live expression object; TLC judges every "
+                     "evaluation against the denotation and requires equal row sets; runs without cache retrievals do not "
+                     "count as non-trivial.",
+                technique="TLA+ denotational spec + TLC-generated programs replayed under both cache configurations + TLC trace validation",
+                ref="7 C05"),
 }
 
 REASON_PENDING = "check not built yet (work in progress; see DESIGN.md section 10)"
